@@ -122,6 +122,39 @@ def gen(ctx):
             vi = "null" if i is None else I(i)
             vj = "null" if j is None else I(j)
             cases.append(dict(filter="[(.[$i:$j] |= \"XY\"), (.[$i:$j] |= empty), (.[$i:$j] |= ascii_upcase)]", inputs=[S(t)], vars=[("i", vi), ("j", vj)], kind="text-slice-upd", ref=("text-slice-upd", t, i, j)))
+    # paths of two parts: each part refuses or skips on its own `?` only
+    nested = [[10, 20], [30], None]
+    for i, j in itertools.product([-4, -3, -1, 0, 1, 2, 3, 5], [-3, -2, -1, 0, 1, 2, 4]):
+        for o1, o2 in itertools.product(["", "?"], repeat=2):
+            if tier == "quick" and rng.random() < 0.4:
+                continue
+            cases.append(dict(filter="[(try (.[$i]%s[$j]%s = 7) catch \"E\"), (try (.[$i]%s[$j]%s |= empty) catch \"E\"), (try (.[$i]%s[$j]%s |= (.+1, 0)) catch \"E\")]" % (o1, o2, o1, o2, o1, o2),
+                              inputs=[from_json(nested)], vars=[("i", idx_val(rng, i)), ("j", idx_val(rng, j))], kind="nested-upd", ref=("nested-upd", nested, i, j, o1, o2)))
+    # destructuring reads what indexing reads, whatever the position of a computed key in the pattern and wherever its key comes from
+    pkeys = [S("a"), S("b"), I(1), NULL, A(I(7)), FALSE, S("")]
+    for _ in range(120 if tier == "quick" else 2500):
+        ks = rng.sample(pkeys, rng.randint(1, 5))
+        o = O(*[(k, I(n + 1)) for n, k in enumerate(ks)])
+        m = rng.randint(2, 3)
+        ents, reads, vs = [], [], []
+        for e in range(m):
+            v = "$v%d" % e
+            r = rng.random()
+            if r < 0.3:
+                ents.append("a: %s" % v); reads.append(".a")
+            elif r < 0.4:
+                ents.append("\"b\": %s" % v); reads.append(".b")
+            elif r < 0.7:
+                ents.append("($k): %s" % v); reads.append(".[$k]")
+            elif r < 0.85:
+                ents.append("($l): %s" % v); reads.append(".[$l]")
+            else:
+                ents.append("(g): %s" % v); reads.append(".[g]")
+            vs.append(v)
+        pat = "{%s}" % ", ".join(ents)
+        form = rng.choice(["def g: $l; [(. as %s | [%s]), [%s]]", "def g: $l; def h(g): [(. as %s | [%s]), [%s]]; h($k)", "def g: $l; [([., .] as [$z, %s] | [%s]), [%s]]",
+                           "def g: $l; [(reduce . as %s (0; [%s])), [%s]]", "def g: $l; [(foreach . as %s (0; 1; [%s])), [%s]]"])
+        cases.append(dict(filter=form % (pat, ", ".join(vs), ", ".join(reads)), inputs=[o], vars=[("k", rng.choice(pkeys)), ("l", rng.choice(pkeys))], kind="pattern-key", ref=("pattern-key",)))
     # objects: arbitrary keys, order of untouched keys, deletion
     keys = [S("a"), S("b"), I(1), F(1.5), NULL, A(I(1)), O((S("k"), I(1))), TRUE, S("")]
     for _ in range(150 if tier == "quick" else 2000):
@@ -220,6 +253,28 @@ def oracle(c, impl, model=None):
         want = [["S", pre + b"XY" + post], ["S", pre + post], ["S", pre + up + post]]
         if out[:3] != want:
             return ("text-slice-upd", "text slice update %r[%s:%s]: %s" % (t, i, j, sx.dumps(impl[1][0])))
+    if r[0] == "pattern-key":
+        if out[0] != out[1]:
+            return ("pattern-key", "destructuring reads %s, indexing with the same keys reads %s" % (sx.dumps(out[0]), sx.dumps(out[1])))
+    if r[0] == "nested-upd":
+        a, i, j, o1, o2 = r[1:]
+        E = ["S", b"E"]
+        n = len(a)
+        ii = i + n if i < 0 else i
+
+        def want(fn):
+            if not (0 <= ii < n):
+                return J(a) if o1 else E
+            inner = a[ii]
+            if inner is None:
+                return J(a) if o2 else E
+            jj = j + len(inner) if j < 0 else j
+            if not (0 <= jj < len(inner)):
+                return J(a) if o2 else E
+            return J(a[:ii] + [fn(inner, jj)] + a[ii + 1:])
+        w = [want(lambda l, q: l[:q] + [7] + l[q + 1:]), want(lambda l, q: l[:q] + l[q + 1:]), want(lambda l, q: l[:q] + [l[q] + 1] + l[q + 1:])]
+        if out[:3] != w:
+            return ("nested-upd", "update of %s at [%d]%s[%d]%s: %s, the position model says %s" % (a, i, o1, j, o2, sx.dumps(impl[1][0]), sx.dumps(["A"] + w)))
     if r[0] == "obj":
         ks, k, cnt = r[1], r[2], r[3]
         present = k in ks
